@@ -19,8 +19,8 @@ EXTENDS Lifecycle, Json, IOUtils
 Nodes == ndJsonDeserialize(IOEnv.LC_NODES)
 Cases == JsonDeserialize(IOEnv.LC_CASES)
 Plan  == Cases.plan
-K == MkK(Plan.D, Plan.S, Plan.W, Plan.maxd, SeqToSet(Plan.cd), SeqToSet(Plan.kinds), Plan.pairs,
-         SeqToSet(Plan.bury), Plan.rev, Plan.mir, Plan.mode, Plan.empty)
+K == WithCrash(MkK(Plan.D, Plan.S, Plan.W, Plan.maxd, SeqToSet(Plan.cd), SeqToSet(Plan.kinds), Plan.pairs,
+         SeqToSet(Plan.bury), Plan.rev, Plan.mir, Plan.mode, Plan.empty), Plan.crash)
 Reqs == Cases.requests
 RC(c) == CASE c = 1 -> "ok" [] c = 2 -> "panic" [] OTHER -> "err"
 
@@ -44,6 +44,7 @@ Spec == Init /\ [][Next]_<<node, g, last>>
 View == <<node, g>>
 C15a == Inv_C15a(g)
 C15b == Inv_C15b(g)
+C15c == Inv_C15c(g)
 \* C15r ("... survives any number of heartbeats and restarts", "... also after a restart"): in every
 \* reachable state a signer restored from a copy of the store has the same channels (phase, forget flag,
 \* monitor heights, stub height), the same id high-water mark, store entries and tracker listeners as the
@@ -54,7 +55,8 @@ RestartEq(nd) == /\ ~nd.rs.failed
                  /\ \A d \in 1..K.maxd : \A f \in ChanFields : nd.rs.chans[d][f] = nd.pre.chans[d][f]
                  /\ nd.rs.pst = nd.pre.pst /\ nd.rs.lis = nd.pre.lis
                  /\ nd.rs.feq
-C15r == Nodes[node + 1].pre.dead \/ RestartEq(Nodes[node + 1])
+\* (a state without a signer is only reached through a restore that failed)
+C15r == ~Nodes[node + 1].pre.dead /\ RestartEq(Nodes[node + 1])
 
 ---------------------------------------------------------------------------
 \* (no set of ALL edges is ever built)
@@ -66,8 +68,9 @@ Conforms(nd, e) ==
       o == Step(K, s, Reqs[e[2]]) IN
   /\ Enabled(K, s, Reqs[e[2]])
   /\ o.rc = RC(e[3])
-  /\ e[1] >= 0 => /\ o.s = Abs(Nodes[e[1] + 1].pre)
-                  /\ Consistent(Nodes[e[1] + 1].pre)
+  /\ e[1] >= 0 /\ ~Nodes[e[1] + 1].pre.dead => /\ o.s = Abs(Nodes[e[1] + 1].pre)
+                                                /\ Consistent(Nodes[e[1] + 1].pre)
+  /\ e[1] >= 0 /\ Nodes[e[1] + 1].pre.dead => o.rc = "err"      \* no signer afterwards
 Divergent == EdgesWhere(LAMBDA nd, e : e[1] # -2 /\ ~nd.pre.dead /\ ~Conforms(nd, e))
 Aborts    == EdgesWhere(LAMBDA nd, e : e[3] = 2)
 RootOk    == Abs(Nodes[1].pre) = InitState(K) /\ Consistent(Nodes[1].pre)
